@@ -404,6 +404,8 @@ def run_record_sequences(ctx):
             calls = big_fields(ctx.rng, asc, nbig)
         else:
             calls = rand_fields(ctx.rng, asc)
+        if s >= n_seq:
+            ctx.crumb({"stream": "large single record", "ascii": asc, "nfields": len(calls)})
         trw, trr = Trace(), Trace()
         cw = make_recording_classes(cccc, trw, asc)
         cr = make_recording_classes(cccc, trr, asc)
@@ -1293,6 +1295,8 @@ def roundtrip_case(ctx, fmt, data, asc, workdir, tag, case, jobs, origin="genera
     m = "ascii" if asc else "binary"
     p1, p2 = os.path.join(workdir, tag + ".1"), os.path.join(workdir, tag + ".2")
     key0 = f"{fmt.name.lower()}-{m}"
+    ctx.crumb(dict(case, step="write/read/re-write through the real stream"))
+    _SPARSE_VIOLATIONS.clear()
     with common.quiet():
         try:
             with recording(mode_w) as trw:
@@ -1319,6 +1323,12 @@ def roundtrip_case(ctx, fmt, data, asc, workdir, tag, case, jobs, origin="genera
             with recording(mode_r) as trr:
                 data2 = fmt.read(p1, asc, like=data)
         except Exception as e:  # noqa
+            if _SPARSE_VIOLATIONS:
+                # the reader handed scipy an index array that does not describe a matrix of the declared shape
+                ctx.fail("scatter-band-columns", "the reader places the values of a scatter record at columns inside "
+                         "the matrix (one index-pointer entry per row)", case, observed=_SPARSE_VIOLATIONS[0])
+                jobs.append((fmt, asc, case, trw, b1))
+                return None
             if asc and not cause:
                 cause = filler_cause(fmt, trw, trr)
             if cause:
@@ -1412,6 +1422,7 @@ def run_formats(ctx, workdir):
 
                 rng = random.Random(seed)
                 case = {"format": fmt.name, "ascii": asc, "gen_seed": seed, "idx": idx}
+                ctx.crumb(dict(case, step="building the container (may read a shipped fixture)"))
                 try:
                     with common.quiet():
                         data = fmt.gen(rng, asc, idx)
@@ -1442,6 +1453,7 @@ def run_fixtures(ctx, workdir):
             ctx.fail(f"{fmt.name.lower()}-fixture-missing", "the shipped fixture exists", {"path": fmt.fixture})
             continue
         local = os.path.join(workdir, "fixture-" + fmt.name)
+        ctx.crumb({"format": fmt.name, "fixture": fmt.fixture, "step": "reading the shipped fixture"})
         shutil.copyfile(src, local)
         orig = open(local, "rb").read()
         case = {"format": fmt.name, "fixture": fmt.fixture}
@@ -1495,6 +1507,7 @@ def run_announced_records(ctx, workdir):
     from armi.nuclearDataIO.cccc import fixsrc, geodst, isotxs, pmatrx
 
     rng = random.Random(ctx.rng.getrandbits(32))
+    ctx.crumb({"stream": "announced-record probes (FIXSRC public reader, GEODST IGOM 1..3, PMATRX activation, ISOTXS NSBLOK 2)"})
     # FIXSRC: the public reader
     arr = garr(rng, (2, 3, 2, 2))
     p = os.path.join(workdir, "fixsrc.pub")
@@ -1592,6 +1605,8 @@ def run_band(ctx, workdir):
     for t in range(ctx.pick(6, 40)):
         seed = ctx.rng.getrandbits(48)
         case = {"format": "ISOTXS", "ascii": False, "gen_seed": seed, "idx": t, "stream": "band"}
+        ctx.crumb(case)
+        _SPARSE_VIOLATIONS.clear()
         lib = gen_isotxs(random.Random(seed), False, t)
         md = lib.isotxsMetadata
         ng, nsb = md["numGroups"], md["maxScatteringBlocks"]
@@ -1617,7 +1632,12 @@ def run_band(ctx, workdir):
                     isotxs.writeBinary(lib, p)
                 back = isotxs.readBinary(p)
         except Exception as e:  # noqa
-            ctx.fail("isotxs-binary-write-raises", "a well-formed library can be written and read", case, observed=repr(e)[:300])
+            if _SPARSE_VIOLATIONS:
+                ctx.fail("scatter-band-columns", "the reader places the values of a scatter record at columns inside "
+                         "the matrix (one index-pointer entry per row)", case, observed=_SPARSE_VIOLATIONS[0])
+            else:
+                ctx.fail("isotxs-binary-write-raises", "a well-formed library can be written and read", case,
+                         observed=repr(e)[:300])
             continue
         recs = trw.records()
         pos = 3
@@ -1673,6 +1693,64 @@ def _cols_read(mat, g, bits):
     return _cols_of(mat[g], bits)
 
 
+# --------------------------------------------------------------------------- guard: never let a bad index array reach scipy's C code
+_SPARSE_VIOLATIONS = []
+
+
+def _check_sparse_args(kind, args, kwargs):
+    """scipy does not validate (data, indices, indptr): a reader that computes columns outside the matrix corrupts the
+    heap and aborts the interpreter. The readers' constructor is wrapped from outside so that such a triple is refused
+    with a Python exception (and remembered) instead."""
+    if not args or not isinstance(args[0], tuple) or len(args[0]) != 3:
+        return
+    data, indices, indptr = (np.asarray(a) for a in args[0])
+    shape = kwargs.get("shape") or (args[1] if len(args) > 1 else None)
+    if shape is None:
+        return
+    major, minor = (shape[0], shape[1]) if kind == "csr" else (shape[1], shape[0])
+    why = None
+    if len(indptr) != major + 1:
+        why = f"index pointer size {len(indptr)} should be {major + 1}"
+    elif len(indices) != len(data) or (len(indptr) and int(indptr[-1]) != len(indices)):
+        why = f"{len(data)} values, {len(indices)} indices, last pointer {indptr[-1] if len(indptr) else None}"
+    elif len(indices) and (indices.min() < 0 or indices.max() >= minor):
+        bad = [int(i) for i in indices if i < 0 or i >= minor][:5]
+        why = f"indices {bad} outside 0..{minor - 1}"
+    elif len(indptr) > 1 and (np.diff(indptr) < 0).any():
+        why = "index pointers decrease"
+    if why:
+        msg = f"{kind}_matrix of shape {tuple(shape)}: {why}"
+        _SPARSE_VIOLATIONS.append(msg)
+        raise ValueError("invalid sparse structure handed to scipy: " + msg)
+
+
+@contextlib.contextmanager
+def guarded_sparse():
+    from scipy import sparse
+
+    from armi.nuclearDataIO.cccc import compxs, isotxs
+
+    class _Proxy:
+        def __getattr__(self, name):
+            return getattr(sparse, name)
+
+        @staticmethod
+        def csr_matrix(*a, **k):
+            _check_sparse_args("csr", a, k)
+            return sparse.csr_matrix(*a, **k)
+
+    def csc(*a, **k):
+        _check_sparse_args("csc", a, k)
+        return sparse.csc_matrix(*a, **k)
+
+    old = (isotxs.sparse, compxs.csc_matrix)
+    isotxs.sparse, compxs.csc_matrix = _Proxy(), csc
+    try:
+        yield
+    finally:
+        isotxs.sparse, compxs.csc_matrix = old
+
+
 @contextlib.contextmanager
 def quiet_armi():
     """armi logs the exceptions the excluded-point streams provoke on purpose; keep them off the terminal."""
@@ -1689,7 +1767,7 @@ def quiet_armi():
 
 
 def run(ctx):
-    with common.scratch_dir() as workdir, quiet_armi():
+    with common.scratch_dir() as workdir, quiet_armi(), guarded_sparse():
         run_helpers(ctx)
         run_record_sequences(ctx)
         run_excluded_points(ctx)
@@ -1733,7 +1811,7 @@ def _oracle_only(ctx, seed_tag, fmts=None, more=1):
     try:
         if fmts:
             os.environ["C09_ONLY"] = ",".join(fmts)
-        with common.scratch_dir() as workdir, quiet_armi():
+        with common.scratch_dir() as workdir, quiet_armi(), guarded_sparse():
             if not fmts:
                 run_helpers(sub)
                 for _ in range(more):
@@ -1780,7 +1858,7 @@ def replay(ctx, payload):
     global _NO_MODEL
     _NO_MODEL = True
     try:
-        with common.scratch_dir() as workdir, quiet_armi():
+        with common.scratch_dir() as workdir, quiet_armi(), guarded_sparse():
             if isinstance(case, dict) and "gen_seed" in case:
                 fmt = next(f for f in formats() if f.name == case["format"])
                 data = fmt.gen(random.Random(case["gen_seed"]), case["ascii"], case["idx"])
